@@ -233,3 +233,144 @@ func c16Handshake(rt *rapid.T) {
 }
 
 func TestC16Handshake(t *testing.T) { rapid.Check(t, c16Handshake) }
+
+// Two more moments "at which the server or a connection may be closed":
+//   - PerformHandshake (the helper that runs both sides) returns as soon as ONE side fails - wrong credentials, or a fault
+//     while it runs; the goroutine it started for the other side must not stay behind;
+//   - a server is closed while an Accept is pending for a client it has not (or never will have) accepted.
+type c16hs2Spec struct {
+	Version  int
+	Scenario string // "perform-wrong-credentials" | "perform-fault" | "accept-pending"
+	Fault    string // perform-fault: "client-close" | "server-conn-close" | "ctx-cancel" | "server-close"
+	DelayUs  int
+}
+
+func c16hs2Session(args []string, _ []byte) string {
+	var spec c16hs2Spec
+	if err := json.Unmarshal([]byte(args[0]), &spec); err != nil {
+		return "FAIL: harness: " + err.Error()
+	}
+	v := primitive.ProtocolVersion(spec.Version)
+	const T = 10 * time.Second
+	base, _ := clientGoroutines()
+	ctx, cancel := context.WithCancel(context.Background())
+	defer cancel()
+	srvCreds := &client.AuthCredentials{Username: "user1", Password: "pass1"}
+	srv := client.NewCqlServer("127.0.0.1:0", srvCreds)
+	if err := srv.Start(context.Background()); err != nil {
+		return "FAIL: harness: server start: " + err.Error()
+	}
+	var closers []func() error
+	switch spec.Scenario {
+	case "accept-pending":
+		// the client is connected to ANOTHER server; this one is asked to accept it and closed while that is pending
+		other := client.NewCqlServer("127.0.0.1:0", nil)
+		if err := other.Start(context.Background()); err != nil {
+			return "FAIL: harness: server start: " + err.Error()
+		}
+		cl := client.NewCqlClient(other.VerifAddr().String(), nil)
+		var cc *client.CqlClientConnection
+		if err := within(T, "Connect", func() (err error) { cc, err = cl.Connect(ctx); return }); err != nil {
+			return "FAIL: harness: connect: " + err.Error()
+		}
+		srv.AcceptTimeout = 300 * time.Millisecond
+		acc := make(chan error, 1)
+		go func() { _, err := srv.Accept(cc); acc <- err }()
+		time.Sleep(time.Duration(spec.DelayUs) * time.Microsecond)
+		if err := within(T, "server Close with an Accept pending", func() error { return srv.Close() }); err != nil {
+			return "FAIL: " + err.Error()
+		}
+		select {
+		case <-acc:
+		case <-time.After(T):
+			return "FAIL: Accept did not return after the server was closed"
+		}
+		closers = append(closers, cc.Close, other.Close)
+	default:
+		creds := srvCreds
+		if spec.Scenario == "perform-wrong-credentials" {
+			creds = &client.AuthCredentials{Username: "user1", Password: "wrong"}
+		}
+		cl := client.NewCqlClient(srv.VerifAddr().String(), creds)
+		cl.ReadTimeout = 3 * T
+		var cc *client.CqlClientConnection
+		var sc *client.CqlServerConnection
+		if err := within(T, "Bind", func() (err error) { cc, sc, err = srv.Bind(cl, ctx); return }); err != nil {
+			return "FAIL: harness: bind: " + err.Error()
+		}
+		done := make(chan error, 1)
+		go func() { done <- client.PerformHandshake(cc, sc, v, client.ManagedStreamId) }()
+		if spec.Scenario == "perform-fault" {
+			time.Sleep(time.Duration(spec.DelayUs) * time.Microsecond)
+			switch spec.Fault {
+			case "client-close":
+				_ = cc.Close()
+			case "server-conn-close":
+				_ = sc.Close()
+			case "server-close":
+				_ = srv.Close()
+			default:
+				cancel()
+			}
+		}
+		select {
+		case err := <-done:
+			if spec.Scenario == "perform-wrong-credentials" && err == nil {
+				return "FAIL: PerformHandshake succeeded with a wrong password"
+			}
+		case <-time.After(T):
+			return fmt.Sprintf("FAIL: PerformHandshake did not return within %v (%s %s)", T, spec.Scenario, spec.Fault)
+		}
+		closers = append(closers, cc.Close, sc.Close, srv.Close)
+	}
+	for _, cl := range closers {
+		cl := cl
+		if err := within(T, "Close", func() error { _ = cl(); return nil }); err != nil {
+			return "FAIL: " + err.Error()
+		}
+	}
+	cancel()
+	deadline := time.Now().Add(T)
+	var left int
+	var sample string
+	for {
+		left, sample = clientGoroutines()
+		if left <= base || time.Now().After(deadline) {
+			break
+		}
+		time.Sleep(10 * time.Millisecond)
+	}
+	if left > base {
+		return fmt.Sprintf("FAIL: %d goroutine(s) of the client package still alive after %s %s and Close of everything, e.g.\n%s", left-base, spec.Scenario, spec.Fault, clipS400(sample))
+	}
+	return "OK"
+}
+
+func init() { workerHandlers["c16hs2"] = c16hs2Session }
+
+func c16Handshake2(rt *rapid.T) {
+	if !everyNth("c16Handshake2", 1, 4) {
+		return
+	}
+	defer noteFailure()
+	rec := stats.For("C16")
+	spec := c16hs2Spec{Version: int(rapid.SampledFrom(allVersions).Draw(rt, "version")),
+		Scenario: rapid.SampledFrom([]string{"perform-wrong-credentials", "perform-fault", "perform-fault", "accept-pending"}).Draw(rt, "scenario"),
+		DelayUs:  rapid.SampledFrom([]int{0, 50, 300, 1000, 3000, 20000}).Draw(rt, "delayUs")}
+	if spec.Scenario == "perform-fault" {
+		spec.Fault = rapid.SampledFrom([]string{"client-close", "server-conn-close", "ctx-cancel", "server-close"}).Draw(rt, "fault")
+	}
+	sj, _ := json.Marshal(spec)
+	verdict := isolated("c16hs2", []string{string(sj)}, nil)
+	verdict = harnessTrouble(verdict)
+	if strings.HasPrefix(verdict, "FAIL:") {
+		rt.Fatalf("%s\nspec %s", verdict, sj)
+	}
+	if strings.HasPrefix(verdict, "SKIP:") {
+		rec.Case(false, 0, nil, "skipped:handshake2")
+		return
+	}
+	rec.Case(true, stats.HashString("hs2/"+string(sj)), func() string { return "handshake helper / pending accept: " + string(sj) }, "handshake-helper", "handshake-helper:"+spec.Scenario)
+}
+
+func TestC16PerformHandshake(t *testing.T) { rapid.Check(t, c16Handshake2) }
